@@ -11,7 +11,7 @@ use owning_iovec::{ByteArena, ConsumingIovec};
 use serde_json::json;
 use std::num::NonZeroUsize;
 
-const POOL: usize = 2 << 20;
+const POOL: usize = 8 << 20;
 
 fn make_pool(shape: &str, seed: u64) -> &'static [u8] {
     let mut x = seed.wrapping_mul(0x9E3779B97F4A7C15) | 1;
@@ -82,6 +82,8 @@ pub fn drive_footprint(ops: &str, trace: &str) {
         let sizes: Vec<usize> = run.cfg["sizes"].as_array().unwrap().iter().map(|x| x.as_u64().unwrap() as usize).collect();
         let m = run.cfg["m"].as_str().unwrap_or("copy").to_string();
         let how = run.cfg["drain"].as_str().unwrap_or("bytes").to_string();
+        let drain_every = run.cfg["drain_every"].as_u64().unwrap_or(1) as usize;
+        let stride = run.cfg["stride"].as_u64().unwrap_or(1).max(1) as usize; // sample every stride-th call
         let pool = make_pool(&shape, geti(&run.cfg, "seed") as u64);
         let live0 = ByteArena::num_live_bytes();
         out.emit(&json!({"run":run.run,"ev":"reset","kind":kind,"total":total,"objects": if kind == "pipeline" {2} else {1},
@@ -91,6 +93,9 @@ pub fn drive_footprint(ops: &str, trace: &str) {
             let mut i = 0usize;
             let mut off = 0usize;
             let sample = |out: &mut Trace, streamed: usize, who: &str, c: &ConsumingIovec<'_>, peak: usize| {
+                if who != "sreader" && (streamed / 64) % stride != 0 && stride > 1 {
+                    return;
+                }
                 let stable: usize = c.stable_prefix().iter().map(|s| s.len()).sum();
                 out.emit(&json!({"run":run.run,"ev":"sample","who":who,"streamed":streamed,"live":ByteArena::num_live_bytes(),
                                  "peak":peak,"total":c.total_size(),"stable":stable,"pending":c.has_pending_backrefs() as u8}));
@@ -99,6 +104,7 @@ pub fn drive_footprint(ops: &str, trace: &str) {
                 "enc" | "pipeline" => {
                     let mut enc = Encoder::new();
                     let mut dec = Decoder::new();
+                    let mut producer_arena = ByteArena::new();
                     while streamed < total {
                         let n = sizes[i % sizes.len()].min(total - streamed).min(POOL / 2);
                         i += 1;
@@ -117,10 +123,19 @@ pub fn drive_footprint(ops: &str, trace: &str) {
                                 let a = enc.read_n(piece, n, NonZeroUsize::MAX).unwrap();
                                 enc.encode_anchored(a);
                             }
+                            "foreign" => {
+                                // the producer reads with its own arena: only the slice's anchor keeps the chunk alive
+                                let a = producer_arena.read_n(piece, n, NonZeroUsize::MAX).unwrap();
+                                enc.encode_anchored(a);
+                            }
                             _ => enc.encode_copy(piece),
                         }
                         streamed += n;
                         sample(&mut out, streamed, "enc", &enc.consumer(), 0);
+                        // some schedules drain only every few calls (several slices per consume call)
+                        if drain_every > 1 && i % drain_every != 0 {
+                            continue;
+                        }
                         let bytes = drain_all(&mut enc.consumer(), &how, kind == "pipeline");
                         if kind == "pipeline" && !bytes.is_empty() {
                             let mut src = &bytes[..];
@@ -144,6 +159,51 @@ pub fn drive_footprint(ops: &str, trace: &str) {
                     }
                     drop(enc);
                     drop(dec);
+                    drop(producer_arena);
+                }
+                "mt" => {
+                    // the live counters are process-wide: short histories on several threads at once
+                    let threads = 8usize;
+                    let iters = total;
+                    let hs: Vec<_> = (0..threads)
+                        .map(|t| {
+                            std::thread::spawn(move || {
+                                for it in 0..iters {
+                                    let mut iov = owning_iovec::OwningIovec::new();
+                                    iov.push_copy(&[t as u8; 100]);
+                                    let a = iov.arena().read_n(&[7u8; 300][..], 300, NonZeroUsize::MAX).unwrap();
+                                    let c = iov.clone();
+                                    if it % 3 == 0 {
+                                        let ar = iov.consumer().take_arena();
+                                        drop(ar);
+                                    }
+                                    iov.push_copy(&[1u8; 5000]);
+                                    let _ = iov.consumer().consume(1);
+                                    match it % 3 {
+                                        0 => {
+                                            drop(iov);
+                                            drop(a);
+                                            drop(c);
+                                        }
+                                        1 => {
+                                            drop(c);
+                                            drop(a);
+                                            drop(iov);
+                                        }
+                                        _ => {
+                                            drop(a);
+                                            drop(iov);
+                                            drop(c);
+                                        }
+                                    }
+                                }
+                            })
+                        })
+                        .collect();
+                    for h in hs {
+                        h.join().expect("worker");
+                    }
+                    let _ = (streamed, i, off);
                 }
                 "sreader" => {
                     // a log: small record, sentinel, one oversized record (skipped by the judge), sentinel, small record
